@@ -14,34 +14,38 @@ package codec
 //@ pred validB(b) = b != nil && b.buf != nil
 //@ pred validR(b) = b != nil && b.buf != nil && b.ref == b.buf.src && b.buf.i >= 0
 //
+// atHead: the wanted field is the very next field (the case property C02 speaks about: write, then read
+// with the same tag); in that case nothing has to be skipped.
+//@ pred atHead(src, p, tag) = hdOk(src, p) && hdTag(src, p) == tag && hdTy(src, p) != StructEnd
+//
 // ------------------------------------------------------------------ raw big-endian helpers
 //
 //@ func bWriteU8
 //@   witness out = w.bytes
 //@   requires w != nil
 //@   modifies w.bytes
-//@   ensures [C02] err == nil && w.bytes == old(w.bytes) ++ [data]
+//@   ensures [C02,C03] err == nil && w.bytes == old(w.bytes) ++ [data]
 //@   safety [C02]
 //
 //@ func bWriteU16
 //@   witness out = w.bytes
 //@   requires w != nil
 //@   modifies w.bytes
-//@   ensures [C02] err == nil && w.bytes == old(w.bytes) ++ beEnc2(data)
+//@   ensures [C02,C03] err == nil && w.bytes == old(w.bytes) ++ beEnc2(data)
 //@   safety [C02]
 //
 //@ func bWriteU32
 //@   witness out = w.bytes
 //@   requires w != nil
 //@   modifies w.bytes
-//@   ensures [C02] err == nil && w.bytes == old(w.bytes) ++ beEnc4(data)
+//@   ensures [C02,C03] err == nil && w.bytes == old(w.bytes) ++ beEnc4(data)
 //@   safety [C02]
 //
 //@ func bWriteU64
 //@   witness out = w.bytes
 //@   requires w != nil
 //@   modifies w.bytes
-//@   ensures [C02] err == nil && w.bytes == old(w.bytes) ++ beEnc8(data)
+//@   ensures [C02,C03] err == nil && w.bytes == old(w.bytes) ++ beEnc8(data)
 //@   safety [C02]
 //
 //@ func bReadU8
@@ -50,9 +54,9 @@ package codec
 //@   witness data0 = *data
 //@   requires r != nil && data != nil && r.i >= 0
 //@   modifies r.i, *data
-//@   ensures [C02,C06] old(r.i) < len(r.src) ==> (err == nil && *data == r.src[old(r.i)] && r.i == old(r.i) + 1)
+//@   ensures [C02,C04,C06] old(r.i) < len(r.src) ==> (err == nil && *data == r.src[old(r.i)] && r.i == old(r.i) + 1)
 //@   ensures [C06] old(r.i) >= len(r.src) ==> err != nil
-//@   ensures [C04,C05] r.i >= old(r.i)
+//@   ensures [C04,C05,C06] r.i >= old(r.i)
 //@   safety [C05]
 //
 //@ func bReadU16
@@ -61,9 +65,9 @@ package codec
 //@   witness data0 = *data
 //@   requires r != nil && data != nil && r.i >= 0
 //@   modifies r.i, *data
-//@   ensures [C02,C06] old(r.i) + 2 <= len(r.src) ==> (err == nil && *data == beDec2(r.src[old(r.i) : old(r.i) + 2]) && r.i == old(r.i) + 2)
+//@   ensures [C02,C04,C06] old(r.i) + 2 <= len(r.src) ==> (err == nil && *data == beDec2(r.src[old(r.i) : old(r.i) + 2]) && r.i == old(r.i) + 2)
 //@   ensures [C06] old(r.i) + 2 > len(r.src) ==> err != nil
-//@   ensures [C04,C05] r.i >= old(r.i)
+//@   ensures [C04,C05,C06] r.i >= old(r.i)
 //@   safety [C05]
 //
 //@ func bReadU32
@@ -72,9 +76,9 @@ package codec
 //@   witness data0 = *data
 //@   requires r != nil && data != nil && r.i >= 0
 //@   modifies r.i, *data
-//@   ensures [C02,C06] old(r.i) + 4 <= len(r.src) ==> (err == nil && *data == beDec4(r.src[old(r.i) : old(r.i) + 4]) && r.i == old(r.i) + 4)
+//@   ensures [C02,C04,C06] old(r.i) + 4 <= len(r.src) ==> (err == nil && *data == beDec4(r.src[old(r.i) : old(r.i) + 4]) && r.i == old(r.i) + 4)
 //@   ensures [C06] old(r.i) + 4 > len(r.src) ==> err != nil
-//@   ensures [C04,C05] r.i >= old(r.i)
+//@   ensures [C04,C05,C06] r.i >= old(r.i)
 //@   safety [C05]
 //
 //@ func bReadU64
@@ -83,9 +87,9 @@ package codec
 //@   witness data0 = *data
 //@   requires r != nil && data != nil && r.i >= 0
 //@   modifies r.i, *data
-//@   ensures [C02,C06] old(r.i) + 8 <= len(r.src) ==> (err == nil && *data == beDec8(r.src[old(r.i) : old(r.i) + 8]) && r.i == old(r.i) + 8)
+//@   ensures [C02,C04,C06] old(r.i) + 8 <= len(r.src) ==> (err == nil && *data == beDec8(r.src[old(r.i) : old(r.i) + 8]) && r.i == old(r.i) + 8)
 //@   ensures [C06] old(r.i) + 8 > len(r.src) ==> err != nil
-//@   ensures [C04,C05] r.i >= old(r.i)
+//@   ensures [C04,C05,C06] r.i >= old(r.i)
 //@   safety [C05]
 //
 // ------------------------------------------------------------------ writers (C02: bytes == wire format)
@@ -204,9 +208,9 @@ package codec
 //@   let src = b.buf.src
 //@   let i0 = b.buf.i
 //@   modifies b.buf.i
-//@   ensures [C02,C04,C06] hdOk(src, i0) ==> (err == nil && ty == hdTy(src, i0) && tag == hdTag(src, i0) && b.buf.i == hdNext(src, i0))
-//@   ensures [C04,C06] !hdOk(src, i0) ==> (err != nil && b.buf.i == hdFailPos(src, i0))
-//@   ensures [C04,C05] b.buf.i >= i0
+//@   ensures [C02,C04,C05,C06] hdOk(src, i0) ==> (err == nil && ty == hdTy(src, i0) && tag == hdTag(src, i0) && b.buf.i == hdNext(src, i0))
+//@   ensures [C04,C05,C06] !hdOk(src, i0) ==> (err != nil && b.buf.i == hdFailPos(src, i0))
+//@   ensures [C04,C05,C06] b.buf.i >= i0
 //@   safety [C05]
 //
 //@ func (*Reader).unreadHead
@@ -214,7 +218,7 @@ package codec
 //@   witness i = b.buf.i
 //@   requires validR(b) && b.buf.i >= headLen(curTag)
 //@   modifies b.buf.i
-//@   ensures [C04] b.buf.i == old(b.buf.i) - headLen(curTag)
+//@   ensures [C04,C05,C06] b.buf.i == old(b.buf.i) - headLen(curTag)
 //@   safety [C05]
 //
 //@ func (*Reader).Skip
@@ -222,8 +226,8 @@ package codec
 //@   witness i = b.buf.i
 //@   requires validR(b)
 //@   modifies b.buf.i
-//@   ensures [C04] n <= 0 ==> b.buf.i == old(b.buf.i)
-//@   ensures [C04] n > 0 ==> b.buf.i == old(b.buf.i) + n
+//@   ensures [C04,C05,C06] n <= 0 ==> b.buf.i == old(b.buf.i)
+//@   ensures [C04,C05,C06] n > 0 ==> b.buf.i == old(b.buf.i) + n
 //@   safety [C05]
 //
 //@ func (*Reader).Next
@@ -233,9 +237,9 @@ package codec
 //@   let src = b.buf.src
 //@   let i0 = b.buf.i
 //@   modifies b.buf.i
-//@   ensures [C02] n <= 0 ==> (len(result) == 0 && b.buf.i == i0)
-//@   ensures [C02] (n > 0 && i0 + n <= len(src)) ==> (result == src[i0 : i0 + n] && b.buf.i == i0 + n)
-//@   ensures [C06] n > 0 ==> b.buf.i == i0 + n
+//@   ensures [C02,C04,C05,C06] n <= 0 ==> (len(result) == 0 && b.buf.i == i0)
+//@   ensures [C02,C04,C06] (n > 0 && i0 + n <= len(src)) ==> (result == src[i0 : i0 + n] && b.buf.i == i0 + n)
+//@   ensures [C04,C05,C06] n > 0 ==> b.buf.i == i0 + n
 //@   ensures [C06] (n > 0 && i0 + n > len(src)) ==> len(result) < n
 //@   safety [C05]
 //
@@ -246,8 +250,8 @@ package codec
 //@   let src = b.buf.src
 //@   let i0 = b.buf.i
 //@   modifies b.buf.i
-//@   ensures [C04] payloadEnd(src, ty, i0) >= 0 ==> (err == nil && b.buf.i == payloadEnd(src, ty, i0))
-//@   ensures [C04,C05] b.buf.i >= i0
+//@   ensures [C04,C06] payloadEnd(src, ty, i0) >= 0 ==> (err == nil && b.buf.i == payloadEnd(src, ty, i0))
+//@   ensures [C04,C05,C06] b.buf.i >= i0
 //@   decreases len(b.buf.src) - b.buf.i, 3
 //@   safety [C05]
 //
@@ -258,10 +262,10 @@ package codec
 //@   let src = b.buf.src
 //@   let i0 = b.buf.i
 //@   modifies b.buf.i
-//@   ensures [C04] payloadEnd(src, LIST, i0) >= 0 ==> (err == nil && b.buf.i == payloadEnd(src, LIST, i0))
-//@   ensures [C04,C05] b.buf.i >= i0
+//@   ensures [C04,C06] payloadEnd(src, LIST, i0) >= 0 ==> (err == nil && b.buf.i == payloadEnd(src, LIST, i0))
+//@   ensures [C04,C05,C06] b.buf.i >= i0
 //@   loop 0 invariant validR(b) && b.buf.i >= i0 && i >= 0
-//@   loop 0 invariant [C04] payloadEnd(src, LIST, i0) >= 0 ==> (length >= 0 && i <= length && fieldsEnd(src, length - i, b.buf.i) == payloadEnd(src, LIST, i0))
+//@   loop 0 invariant [C04,C06] payloadEnd(src, LIST, i0) >= 0 ==> (length >= 0 && i <= length && fieldsEnd(src, length - i, b.buf.i) == payloadEnd(src, LIST, i0))
 //@   loop 0 decreases length - i
 //@   decreases len(b.buf.src) - b.buf.i, 2
 //@   safety [C05]
@@ -273,10 +277,10 @@ package codec
 //@   let src = b.buf.src
 //@   let i0 = b.buf.i
 //@   modifies b.buf.i
-//@   ensures [C04] payloadEnd(src, MAP, i0) >= 0 ==> (err == nil && b.buf.i == payloadEnd(src, MAP, i0))
-//@   ensures [C04,C05] b.buf.i >= i0
+//@   ensures [C04,C06] payloadEnd(src, MAP, i0) >= 0 ==> (err == nil && b.buf.i == payloadEnd(src, MAP, i0))
+//@   ensures [C04,C05,C06] b.buf.i >= i0
 //@   loop 0 invariant validR(b) && b.buf.i >= i0 && i >= 0
-//@   loop 0 invariant [C04] payloadEnd(src, MAP, i0) >= 0 ==> (length >= 0 && length <= 1073741823 && i <= 2 * length && fieldsEnd(src, 2 * length - i, b.buf.i) == payloadEnd(src, MAP, i0))
+//@   loop 0 invariant [C04,C06] payloadEnd(src, MAP, i0) >= 0 ==> (length >= 0 && length <= 1073741823 && i <= 2 * length && fieldsEnd(src, 2 * length - i, b.buf.i) == payloadEnd(src, MAP, i0))
 //@   loop 0 decreases s32(length * 2) - i
 //@   decreases len(b.buf.src) - b.buf.i, 2
 //@   safety [C05]
@@ -288,8 +292,8 @@ package codec
 //@   let src = b.buf.src
 //@   let i0 = b.buf.i
 //@   modifies b.buf.i
-//@   ensures [C04] payloadEnd(src, SimpleList, i0) >= 0 ==> (err == nil && b.buf.i == payloadEnd(src, SimpleList, i0))
-//@   ensures [C04,C05] b.buf.i >= i0
+//@   ensures [C04,C06] payloadEnd(src, SimpleList, i0) >= 0 ==> (err == nil && b.buf.i == payloadEnd(src, SimpleList, i0))
+//@   ensures [C04,C05,C06] b.buf.i >= i0
 //@   decreases len(b.buf.src) - b.buf.i, 2
 //@   safety [C05]
 //
@@ -300,10 +304,10 @@ package codec
 //@   let src = b.buf.src
 //@   let i0 = b.buf.i
 //@   modifies b.buf.i
-//@   ensures [C04] structEnd(src, i0) >= 0 ==> (err == nil && b.buf.i == structEnd(src, i0))
-//@   ensures [C04,C05] b.buf.i >= i0
+//@   ensures [C04,C06] structEnd(src, i0) >= 0 ==> (err == nil && b.buf.i == structEnd(src, i0))
+//@   ensures [C04,C05,C06] b.buf.i >= i0
 //@   loop 0 invariant validR(b) && b.buf.i >= i0
-//@   loop 0 invariant [C04] structEnd(src, i0) >= 0 ==> structEnd(src, b.buf.i) == structEnd(src, i0)
+//@   loop 0 invariant [C04,C06] structEnd(src, i0) >= 0 ==> structEnd(src, b.buf.i) == structEnd(src, i0)
 //@   loop 0 decreases len(src) - b.buf.i
 //@   decreases len(b.buf.src) - b.buf.i, 2
 //@   safety [C05]
@@ -315,13 +319,16 @@ package codec
 //@   let src = b.buf.src
 //@   let i0 = b.buf.i
 //@   modifies b.buf.i
-//@   ensures [C02,C04,C06] seekK(src, i0, tag) == 0 ==> (result0 && result1 == seekTy(src, i0, tag) && err == nil && b.buf.i == seekP(src, i0, tag))
+//@   ensures [C02] atHead(src, i0, tag) ==> (result0 && result1 == hdTy(src, i0) && err == nil && b.buf.i == hdNext(src, i0))
+//@   ensures [C02] atHead(src, i0, tag) ==> (seekK(src, i0, tag) == 0 && seekTy(src, i0, tag) == hdTy(src, i0) && seekP(src, i0, tag) == hdNext(src, i0))
+//@   ensures [C04,C06] seekK(src, i0, tag) == 0 ==> (result0 && result1 == seekTy(src, i0, tag) && err == nil && b.buf.i == seekP(src, i0, tag))
 //@   ensures [C04,C06] (seekK(src, i0, tag) == 1 || seekK(src, i0, tag) == 2) ==> (require ? err != nil : (!result0 && err == nil))
 //@   ensures [C04] (seekK(src, i0, tag) == 1 && !require && seekCanon(src, i0, tag)) ==> b.buf.i == seekP(src, i0, tag)
 //@   ensures [C04] (seekK(src, i0, tag) == 2 && !require) ==> b.buf.i == seekP(src, i0, tag)
-//@   ensures [C04,C05] b.buf.i >= i0
-//@   loop 0 invariant validR(b) && b.buf.i >= i0
-//@   loop 0 invariant [C02,C04,C06] seekK(src, i0, tag) != 3 ==> seekK(src, b.buf.i, tag) == seekK(src, i0, tag) && seekP(src, b.buf.i, tag) == seekP(src, i0, tag) && seekTy(src, b.buf.i, tag) == seekTy(src, i0, tag) && seekCanon(src, b.buf.i, tag) == seekCanon(src, i0, tag)
+//@   ensures [C04,C05,C06] b.buf.i >= i0
+//@   loop 0 invariant [C04,C05,C06] validR(b) && b.buf.i >= i0
+//@   loop 0 invariant [C02] (b.buf.i == i0 && validR(b)) || !atHead(src, i0, tag)
+//@   loop 0 invariant [C04,C06] seekK(src, i0, tag) != 3 ==> seekK(src, b.buf.i, tag) == seekK(src, i0, tag) && seekP(src, b.buf.i, tag) == seekP(src, i0, tag) && seekTy(src, b.buf.i, tag) == seekTy(src, i0, tag) && seekCanon(src, b.buf.i, tag) == seekCanon(src, i0, tag)
 //@   loop 0 decreases len(src) - b.buf.i
 //@   decreases len(b.buf.src) - b.buf.i, 0
 //@   safety [C05]
@@ -337,7 +344,7 @@ package codec
 //@   ensures [C06] (seekK(src, i0, tag) == 0 && seekTy(src, i0, tag) != ty) ==> err != nil
 //@   ensures [C04,C06] (seekK(src, i0, tag) == 1 || seekK(src, i0, tag) == 2) ==> (require ? err != nil : (!result0 && err == nil))
 //@   ensures [C04] (seekK(src, i0, tag) == 1 && !require && seekCanon(src, i0, tag)) ==> b.buf.i == seekP(src, i0, tag)
-//@   ensures [C04,C05] b.buf.i >= i0
+//@   ensures [C04,C05,C06] b.buf.i >= i0
 //@   safety [C05]
 //
 // ------------------------------------------------------------------ readers of primitives (C02, C06; strict reference decoder)
@@ -350,11 +357,12 @@ package codec
 //@   let src = b.buf.src
 //@   let i0 = b.buf.i
 //@   modifies b.buf.i, *data
-//@   ensures [C02,C06] decIntK(src, i0, tag, require, 1) == 0 ==> (err == nil && *data == decIntV(src, i0, tag) && b.buf.i == decIntP(src, i0, tag))
+//@   ensures [C02] (atHead(src, i0, tag) && decIntK(src, i0, tag, require, 1) == 0) ==> (err == nil && *data == decIntV(src, i0, tag) && b.buf.i == decIntP(src, i0, tag))
+//@   ensures [C04,C06] decIntK(src, i0, tag, require, 1) == 0 ==> (err == nil && *data == decIntV(src, i0, tag) && b.buf.i == decIntP(src, i0, tag))
 //@   ensures [C04,C06] decIntK(src, i0, tag, require, 1) == 1 ==> (err == nil && *data == old(*data))
 //@   ensures [C04] (decIntK(src, i0, tag, require, 1) == 1 && seekK(src, i0, tag) == 1 && seekCanon(src, i0, tag)) ==> b.buf.i == seekP(src, i0, tag)
 //@   ensures [C06] decIntK(src, i0, tag, require, 1) == 2 ==> err != nil
-//@   ensures [C04,C05] b.buf.i >= i0
+//@   ensures [C04,C05,C06] b.buf.i >= i0
 //@   decreases len(b.buf.src) - b.buf.i, 1
 //@   safety [C05]
 //
@@ -366,11 +374,12 @@ package codec
 //@   let src = b.buf.src
 //@   let i0 = b.buf.i
 //@   modifies b.buf.i, *data
-//@   ensures [C02,C06] decIntK(src, i0, tag, require, 2) == 0 ==> (err == nil && *data == decIntV(src, i0, tag) && b.buf.i == decIntP(src, i0, tag))
+//@   ensures [C02] (atHead(src, i0, tag) && decIntK(src, i0, tag, require, 2) == 0) ==> (err == nil && *data == decIntV(src, i0, tag) && b.buf.i == decIntP(src, i0, tag))
+//@   ensures [C04,C06] decIntK(src, i0, tag, require, 2) == 0 ==> (err == nil && *data == decIntV(src, i0, tag) && b.buf.i == decIntP(src, i0, tag))
 //@   ensures [C04,C06] decIntK(src, i0, tag, require, 2) == 1 ==> (err == nil && *data == old(*data))
 //@   ensures [C04] (decIntK(src, i0, tag, require, 2) == 1 && seekK(src, i0, tag) == 1 && seekCanon(src, i0, tag)) ==> b.buf.i == seekP(src, i0, tag)
 //@   ensures [C06] decIntK(src, i0, tag, require, 2) == 2 ==> err != nil
-//@   ensures [C04,C05] b.buf.i >= i0
+//@   ensures [C04,C05,C06] b.buf.i >= i0
 //@   decreases len(b.buf.src) - b.buf.i, 1
 //@   safety [C05]
 //
@@ -382,11 +391,12 @@ package codec
 //@   let src = b.buf.src
 //@   let i0 = b.buf.i
 //@   modifies b.buf.i, *data
-//@   ensures [C02,C06] decIntK(src, i0, tag, require, 4) == 0 ==> (err == nil && *data == decIntV(src, i0, tag) && b.buf.i == decIntP(src, i0, tag))
+//@   ensures [C02] (atHead(src, i0, tag) && decIntK(src, i0, tag, require, 4) == 0) ==> (err == nil && *data == decIntV(src, i0, tag) && b.buf.i == decIntP(src, i0, tag))
+//@   ensures [C04,C06] decIntK(src, i0, tag, require, 4) == 0 ==> (err == nil && *data == decIntV(src, i0, tag) && b.buf.i == decIntP(src, i0, tag))
 //@   ensures [C04,C06] decIntK(src, i0, tag, require, 4) == 1 ==> (err == nil && *data == old(*data))
 //@   ensures [C04] (decIntK(src, i0, tag, require, 4) == 1 && seekK(src, i0, tag) == 1 && seekCanon(src, i0, tag)) ==> b.buf.i == seekP(src, i0, tag)
 //@   ensures [C06] decIntK(src, i0, tag, require, 4) == 2 ==> err != nil
-//@   ensures [C04,C05] b.buf.i >= i0
+//@   ensures [C04,C05,C06] b.buf.i >= i0
 //@   decreases len(b.buf.src) - b.buf.i, 1
 //@   safety [C05]
 //
@@ -398,11 +408,12 @@ package codec
 //@   let src = b.buf.src
 //@   let i0 = b.buf.i
 //@   modifies b.buf.i, *data
-//@   ensures [C02,C06] decIntK(src, i0, tag, require, 8) == 0 ==> (err == nil && *data == decIntV(src, i0, tag) && b.buf.i == decIntP(src, i0, tag))
+//@   ensures [C02] (atHead(src, i0, tag) && decIntK(src, i0, tag, require, 8) == 0) ==> (err == nil && *data == decIntV(src, i0, tag) && b.buf.i == decIntP(src, i0, tag))
+//@   ensures [C04,C06] decIntK(src, i0, tag, require, 8) == 0 ==> (err == nil && *data == decIntV(src, i0, tag) && b.buf.i == decIntP(src, i0, tag))
 //@   ensures [C04,C06] decIntK(src, i0, tag, require, 8) == 1 ==> (err == nil && *data == old(*data))
 //@   ensures [C04] (decIntK(src, i0, tag, require, 8) == 1 && seekK(src, i0, tag) == 1 && seekCanon(src, i0, tag)) ==> b.buf.i == seekP(src, i0, tag)
 //@   ensures [C06] decIntK(src, i0, tag, require, 8) == 2 ==> err != nil
-//@   ensures [C04,C05] b.buf.i >= i0
+//@   ensures [C04,C05,C06] b.buf.i >= i0
 //@   decreases len(b.buf.src) - b.buf.i, 1
 //@   safety [C05]
 //
@@ -414,10 +425,11 @@ package codec
 //@   let src = b.buf.src
 //@   let i0 = b.buf.i
 //@   modifies b.buf.i, *data
-//@   ensures [C02,C06] decIntK(src, i0, tag, require, 2) == 0 ==> (err == nil && *data == u8(decIntV(src, i0, tag)) && b.buf.i == decIntP(src, i0, tag))
+//@   ensures [C02] (atHead(src, i0, tag) && decIntK(src, i0, tag, require, 2) == 0) ==> (err == nil && *data == u8(decIntV(src, i0, tag)) && b.buf.i == decIntP(src, i0, tag))
+//@   ensures [C04,C06] decIntK(src, i0, tag, require, 2) == 0 ==> (err == nil && *data == u8(decIntV(src, i0, tag)) && b.buf.i == decIntP(src, i0, tag))
 //@   ensures [C04,C06] decIntK(src, i0, tag, require, 2) == 1 ==> (err == nil && *data == old(*data))
 //@   ensures [C06] decIntK(src, i0, tag, require, 2) == 2 ==> err != nil
-//@   ensures [C04,C05] b.buf.i >= i0
+//@   ensures [C04,C05,C06] b.buf.i >= i0
 //@   safety [C05]
 //
 //@ func (*Reader).ReadUint16
@@ -428,10 +440,11 @@ package codec
 //@   let src = b.buf.src
 //@   let i0 = b.buf.i
 //@   modifies b.buf.i, *data
-//@   ensures [C02,C06] decIntK(src, i0, tag, require, 4) == 0 ==> (err == nil && *data == u16(decIntV(src, i0, tag)) && b.buf.i == decIntP(src, i0, tag))
+//@   ensures [C02] (atHead(src, i0, tag) && decIntK(src, i0, tag, require, 4) == 0) ==> (err == nil && *data == u16(decIntV(src, i0, tag)) && b.buf.i == decIntP(src, i0, tag))
+//@   ensures [C04,C06] decIntK(src, i0, tag, require, 4) == 0 ==> (err == nil && *data == u16(decIntV(src, i0, tag)) && b.buf.i == decIntP(src, i0, tag))
 //@   ensures [C04,C06] decIntK(src, i0, tag, require, 4) == 1 ==> (err == nil && *data == old(*data))
 //@   ensures [C06] decIntK(src, i0, tag, require, 4) == 2 ==> err != nil
-//@   ensures [C04,C05] b.buf.i >= i0
+//@   ensures [C04,C05,C06] b.buf.i >= i0
 //@   safety [C05]
 //
 //@ func (*Reader).ReadUint32
@@ -442,10 +455,11 @@ package codec
 //@   let src = b.buf.src
 //@   let i0 = b.buf.i
 //@   modifies b.buf.i, *data
-//@   ensures [C02,C06] decIntK(src, i0, tag, require, 8) == 0 ==> (err == nil && *data == u32(decIntV(src, i0, tag)) && b.buf.i == decIntP(src, i0, tag))
+//@   ensures [C02] (atHead(src, i0, tag) && decIntK(src, i0, tag, require, 8) == 0) ==> (err == nil && *data == u32(decIntV(src, i0, tag)) && b.buf.i == decIntP(src, i0, tag))
+//@   ensures [C04,C06] decIntK(src, i0, tag, require, 8) == 0 ==> (err == nil && *data == u32(decIntV(src, i0, tag)) && b.buf.i == decIntP(src, i0, tag))
 //@   ensures [C04,C06] decIntK(src, i0, tag, require, 8) == 1 ==> (err == nil && *data == old(*data))
 //@   ensures [C06] decIntK(src, i0, tag, require, 8) == 2 ==> err != nil
-//@   ensures [C04,C05] b.buf.i >= i0
+//@   ensures [C04,C05,C06] b.buf.i >= i0
 //@   safety [C05]
 //
 //@ func (*Reader).ReadBool
@@ -456,10 +470,11 @@ package codec
 //@   let src = b.buf.src
 //@   let i0 = b.buf.i
 //@   modifies b.buf.i, *data
-//@   ensures [C02,C06] decIntK(src, i0, tag, require, 1) == 0 ==> (err == nil && *data == (decIntV(src, i0, tag) != 0) && b.buf.i == decIntP(src, i0, tag))
+//@   ensures [C02] (atHead(src, i0, tag) && decIntK(src, i0, tag, require, 1) == 0) ==> (err == nil && *data == (decIntV(src, i0, tag) != 0) && b.buf.i == decIntP(src, i0, tag))
+//@   ensures [C04,C06] decIntK(src, i0, tag, require, 1) == 0 ==> (err == nil && *data == (decIntV(src, i0, tag) != 0) && b.buf.i == decIntP(src, i0, tag))
 //@   ensures [C04,C06] decIntK(src, i0, tag, require, 1) == 1 ==> (err == nil && *data == old(*data))
 //@   ensures [C06] decIntK(src, i0, tag, require, 1) == 2 ==> err != nil
-//@   ensures [C04,C05] b.buf.i >= i0
+//@   ensures [C04,C05,C06] b.buf.i >= i0
 //@   safety [C05]
 //
 //@ func (*Reader).ReadFloat32
@@ -470,10 +485,11 @@ package codec
 //@   let src = b.buf.src
 //@   let i0 = b.buf.i
 //@   modifies b.buf.i, *data
-//@   ensures [C02,C06] decF32K(src, i0, tag, require) == 0 ==> (err == nil && *data == decF32V(src, i0, tag) && b.buf.i == decIntP(src, i0, tag))
+//@   ensures [C02] (atHead(src, i0, tag) && decF32K(src, i0, tag, require) == 0) ==> (err == nil && *data == decF32V(src, i0, tag) && b.buf.i == decIntP(src, i0, tag))
+//@   ensures [C04,C06] decF32K(src, i0, tag, require) == 0 ==> (err == nil && *data == decF32V(src, i0, tag) && b.buf.i == decIntP(src, i0, tag))
 //@   ensures [C04,C06] decF32K(src, i0, tag, require) == 1 ==> (err == nil && *data == old(*data))
 //@   ensures [C06] decF32K(src, i0, tag, require) == 2 ==> err != nil
-//@   ensures [C04,C05] b.buf.i >= i0
+//@   ensures [C04,C05,C06] b.buf.i >= i0
 //@   safety [C05]
 //
 //@ func (*Reader).ReadFloat64
@@ -484,10 +500,11 @@ package codec
 //@   let src = b.buf.src
 //@   let i0 = b.buf.i
 //@   modifies b.buf.i, *data
-//@   ensures [C02,C06] decF64K(src, i0, tag, require) == 0 ==> (err == nil && *data == decF64V(src, i0, tag) && b.buf.i == decIntP(src, i0, tag))
+//@   ensures [C02] (atHead(src, i0, tag) && decF64K(src, i0, tag, require) == 0) ==> (err == nil && *data == decF64V(src, i0, tag) && b.buf.i == decIntP(src, i0, tag))
+//@   ensures [C04,C06] decF64K(src, i0, tag, require) == 0 ==> (err == nil && *data == decF64V(src, i0, tag) && b.buf.i == decIntP(src, i0, tag))
 //@   ensures [C04,C06] decF64K(src, i0, tag, require) == 1 ==> (err == nil && *data == old(*data))
 //@   ensures [C06] decF64K(src, i0, tag, require) == 2 ==> err != nil
-//@   ensures [C04,C05] b.buf.i >= i0
+//@   ensures [C04,C05,C06] b.buf.i >= i0
 //@   safety [C05]
 //
 //@ func (*Reader).ReadString
@@ -498,10 +515,11 @@ package codec
 //@   let src = b.buf.src
 //@   let i0 = b.buf.i
 //@   modifies b.buf.i, *data
-//@   ensures [C02,C06] decStrK(src, i0, tag, require) == 0 ==> (err == nil && *data == decStrV(src, i0, tag) && b.buf.i == decStrP(src, i0, tag))
+//@   ensures [C02] (atHead(src, i0, tag) && decStrK(src, i0, tag, require) == 0) ==> (err == nil && *data == decStrV(src, i0, tag) && b.buf.i == decStrP(src, i0, tag))
+//@   ensures [C04,C06] decStrK(src, i0, tag, require) == 0 ==> (err == nil && *data == decStrV(src, i0, tag) && b.buf.i == decStrP(src, i0, tag))
 //@   ensures [C04,C06] decStrK(src, i0, tag, require) == 1 ==> (err == nil && *data == old(*data))
 //@   ensures [C06] decStrK(src, i0, tag, require) == 2 ==> err != nil
-//@   ensures [C04,C05] b.buf.i >= i0
+//@   ensures [C04,C05,C06] b.buf.i >= i0
 //@   safety [C05]
 //
 // ------------------------------------------------------------------ raw byte-vector readers (C05, C06)
@@ -518,7 +536,7 @@ package codec
 //@   ensures [C06] len <= 0 ==> (err == nil && hdr(*data) == old(hdr(*data)) && b.buf.i == i0)
 //@   ensures [C06] (len > 0 && err == nil) ==> (i0 + len <= len(src) && *data == src[i0 : i0 + len] && b.buf.i == i0 + len)
 //@   ensures [C03] (len > 0 && i0 + len <= len(src)) ==> err == nil
-//@   ensures [C04,C05] b.buf.i >= i0
+//@   ensures [C04,C05,C06] b.buf.i >= i0
 //@   safety [C05]
 //
 //@ func (*Reader).ReadSliceUint8
@@ -533,7 +551,7 @@ package codec
 //@   ensures [C06] len <= 0 ==> (err == nil && hdr(*data) == old(hdr(*data)) && b.buf.i == i0)
 //@   ensures [C06] (len > 0 && err == nil) ==> (i0 + len <= len(src) && *data == src[i0 : i0 + len] && b.buf.i == i0 + len)
 //@   ensures [C03] (len > 0 && i0 + len <= len(src)) ==> err == nil
-//@   ensures [C04,C05] b.buf.i >= i0
+//@   ensures [C04,C05,C06] b.buf.i >= i0
 //@   safety [C05]
 //
 //@ func (*Reader).ReadBytes
@@ -546,7 +564,7 @@ package codec
 //@   modifies b.buf.i, *data
 //@   allocates
 //@   ensures [C06] err == nil ==> (len >= 0 && i0 + len <= len(src) && *data == src[i0 : i0 + len] && b.buf.i == i0 + len)
-//@   ensures [C04,C05] b.buf.i >= i0
+//@   ensures [C04,C05,C06] b.buf.i >= i0
 //@   safety [C05]
 //
 // ------------------------------------------------------------------ constructors and views
